@@ -134,3 +134,46 @@ def fmin(vals):
     for v in vals[1:]:
         r = z3.If(z3.fpLT(v.t, r), v.t, r)
     return SymFP(r)
+
+
+# ---- dual-mode claim helpers (SymFP terms or plain Python floats, always exact)
+def _c(v):
+    from .engine import CBool
+
+    return CBool(bool(v))
+
+
+def _is(x, y=None):
+    return isinstance(x, SymFP) or isinstance(y, SymFP)
+
+
+def f_same(a, b):
+    "bit-identical (NaNs identified)"
+    if _is(a, b):
+        return SymBool(same_bits(fpterm(a), fpterm(b)))
+    a, b = float(a), float(b)
+    if math.isnan(a) or math.isnan(b):
+        return _c(math.isnan(a) and math.isnan(b))
+    return _c(a == b and math.copysign(1, a) == math.copysign(1, b))
+
+
+def f_isnan(x):
+    if _is(x):
+        return SymBool(z3.fpIsNaN(x.t))
+    return _c(math.isnan(float(x)))
+
+
+def f_le(a, b):
+    return (a <= b) if _is(a, b) else _c(float(a) <= float(b))
+
+
+def f_lt(a, b):
+    return (a < b) if _is(a, b) else _c(float(a) < float(b))
+
+
+def f_gt(a, b):
+    return (a > b) if _is(a, b) else _c(float(a) > float(b))
+
+
+def f_eq(a, b):
+    return (a == b) if _is(a, b) else _c(float(a) == float(b))
